@@ -953,3 +953,54 @@ Proof.
 Qed.
 
 End OutcomePF.
+
+(* ---------------------------------------------------------------------------------------------------------- *)
+(* The ghost fields the theorems speak about are pinned to the consumer's real outputs: g_items grows by x exactly in the
+   step in which next() returns the item x, g_recv counts the entries consumed (items and map_fn errors), and no other
+   consumer step touches either. *)
+Lemma ghost_items_are_outputs c m g :
+  let g' := fst (cstep c m g) in
+  match snd (cstep c m g) with
+  | Some (OutItem x) => g_items g' = g_items g ++ [x] /\ g_recv g' = S (g_recv g)
+  | Some (OutErr e) => g_items g' = g_items g /\
+                       g_recv g' = (match g_c g with CRelErr 1 _ => if k_pm c then S (g_recv g) else g_recv g | _ => g_recv g end)
+  | _ => g_items g' = g_items g /\ g_recv g' = g_recv g
+  end.
+Proof.
+  assert (forall g0 k, g_items (fst (after_join c g0 k)) = g_items g0 /\ g_recv (fst (after_join c g0 k)) = g_recv g0 /\
+                       (snd (after_join c g0 k) = None \/ snd (after_join c g0 k) = Some OutShut)) as Haj.
+  { intros g0 k. unfold after_join. destruct (next_join c g0 k (2 + k_nw c - k)); cbn; auto. }
+  unfold cstep. destruct (g_c g) eqn:Ec; cbn; rewrite ?Ec; auto.
+  - destruct m; [destruct (g_store g) as [|[v sp] tl]|]; cbn; rewrite ?Ec; auto.
+  - destruct (g_stop g); [|destruct (k_pm c)]; cbn; auto.
+  - destruct (g_mpstop g); [|destruct ((g_done g || negb (r_alive g)) && (g_sem g =? kmax c))]; cbn; auto.
+  - destruct m; [|cbn; auto]. destruct (outq c g) as [|[p i] tl]; [cbn; auto|].
+    destruct (outq_cases c g) as [[E1 E2]|[[E1 E2]|[E1 E2]]]; rewrite E2; destruct p as [x| |e]; cbn; auto.
+  - destruct (pop_version (S i) (g_store g)) as [[sp|] rest]; cbn; auto.
+  - destruct (k_pm c); cbn; auto.
+  - destruct (k_pm c); [|cbn; auto]. destruct e as [|[|e]]; cbn; auto.
+    destruct (pop_version (S i) (g_store g)) as [[sp|] rest]; cbn; auto.
+  - destruct e; cbn; auto.
+  - destruct (k_pm c); [cbn; auto|]. destruct (Haj (g <| g_stop := true |>) 0) as (A1 & A2 & [A3|A3]); rewrite A3; cbn in *; auto.
+  - destruct (Haj (g <| g_mpstop := true |>) 0) as (A1 & A2 & [A3|A3]); rewrite A3; cbn in *; auto.
+  - destruct m; destruct (stage_alive c g k); cbn; auto; destruct (Haj g (S k)) as (A1 & A2 & [A3|A3]); rewrite A3; auto.
+Qed.
+
+(* ... and the log the user-level script sees: the straight-line code after an operation only appends to it, and a completed
+   next() that is not part of a fast-forward logs exactly the item it returned *)
+Lemma dispatch_obs_prefix c : forall todo s, exists rest, s_obs (dispatch c todo s) = s_obs s ++ rest.
+Proof.
+  induction todo as [|a t IH]; intros s; cbn.
+  - exists []. rewrite app_nil_r. reflexivity.
+  - destruct a; destruct (cur s) as [g|]; cbn;
+      try (exists []; rewrite app_nil_r; reflexivity);
+      try (match goal with |- context [dispatch c t ?s1] => destruct (IH s1) as [rest Hr]; rewrite Hr; cbn; rewrite <- ?app_assoc; eexists; reflexivity end).
+    all: unfold construct; repeat match goal with |- context [match ?x with _ => _ end] => destruct x end; cbn; exists []; rewrite app_nil_r; reflexivity.
+Qed.
+
+Lemma completed_next_logs_its_item c x s g : cur s = Some g -> g_ff g = 0 ->
+  exists rest, s_obs (complete c (OutItem x) s) = s_obs s ++ ObsItem x :: rest.
+Proof.
+  intros Ec Hff. unfold complete. rewrite Ec, Hff.
+  destruct (dispatch_obs_prefix c (s_todo s) (log (ObsItem x) s)) as [rest Hr]. rewrite Hr. cbn. rewrite <- app_assoc. eexists. reflexivity.
+Qed.
